@@ -952,6 +952,22 @@ func c04DeclaredCounts(c *Ctx) {
 				continue
 			}
 			b := strip(bo.Y)
+			// the count may travel in a field of a local record (loc.sectionCount): every store to that field is the
+			// decoded count itself
+			if ld, ok := b.(*ssa.UnOp); ok && ld.Op == token.MUL && !decoded(b) {
+				if fa, ok := ld.X.(*ssa.FieldAddr); ok {
+					vals := flow.NewSlicer(c.P).FieldStores(flow.StructFieldKey(fa.X.Type(), fa.Field))
+					all := len(vals) > 0
+					for _, v := range vals {
+						if !decoded(strip(v)) {
+							all = false
+						}
+					}
+					if all {
+						b = strip(vals[0])
+					}
+				}
+			}
 			if decoded(b) {
 				nDirect++
 				c.S.OK("R10", load.FuncName(f)+":loop over a declared count", c.pos(iff.Cond.Pos()), "bounded by the decoded count field itself", false)
